@@ -326,8 +326,14 @@ def run_literal(desc):
         entries = [p for p, _d, _l in model.all_entries(follow=False, max_depth=6)]
         n = 0
         for segs in FC.literal_variants(entries):
-            for cfg in ({}, {'icase': True}, {'icase': True, 'globstar': True}, {'globstar': True, 'dot': True}, {'matchbase': True, 'escsep': True}, {'icase': True, 'case': True}):
-                if any(isinstance(x, str) for x in segs) and not cfg.get('globstar'):
+            for cfg in ({}, {'icase': True}, {'icase': True, 'globstar': True}, {'globstar': True, 'dot': True}, {'matchbase': True, 'escsep': True}, {'icase': True, 'case': True},
+                        {'globstarlong': True}):
+                if cfg.get('globstarlong'):
+                    # the globstar variants written `***`: the kind that passes through symlinked directories, at any depth
+                    if not any(isinstance(x, str) for x in segs):
+                        continue
+                    segs = tuple(A.GSL if x == A.GS else x for x in segs)
+                elif any(isinstance(x, str) for x in segs) and not cfg.get('globstar'):
                     continue
                 if cfg.get('escsep') and len(segs) < 2:
                     continue
